@@ -14,29 +14,62 @@ import re
 ANCHORS = os.path.join(os.path.dirname(os.path.dirname(os.path.abspath(__file__))), "anchors.json")
 KINDS = ("fn", "assoc_fn")
 MIN_SCORE = 0.6
+LOW_SCORE = 0.3
 MARGIN = 0.1
 
 
-def fingerprint(bj, rename=None):
-    """Signature + callee multiset of a body (JSON form)."""
+NOISE = re.compile(r"^(std|core|alloc)::(result|option|convert|ops|borrow|clone|iter|cmp|fmt|mem|boxed|rc)::|^<[^>]* as (std|core)::(convert|ops|clone|cmp|borrow)::")
+
+
+def _weight(callee):
+    if NOISE.search(callee) or callee.startswith(("<T as std::convert", "std::result::Result::", "std::option::Option::")):
+        return 0.3
+    if not callee.startswith(("std::", "core::", "alloc::", "<std::", "<core::")):
+        return 3.0      # the crate's own functions, rustix and libc entries: what the function is about
+    return 1.0
+
+
+def fingerprint(bj, children=None):
+    """Signature + callee multiset of a body (JSON form); `children` maps a path to its closure bodies, whose callees
+    are folded in (rewriting a closure chain as explicit control flow must not change the fingerprint much)."""
     callees = {}
-    for blk in bj["blocks"]:
-        t = blk.get("term") or {}
-        if t.get("k") == "call" and not blk.get("cleanup"):
-            f = t.get("f") or {}
-            n = f.get("rpath") or f.get("path") or "?"
-            callees[n] = callees.get(n, 0) + 1
+
+    def scan(b):
+        for blk in b["blocks"]:
+            t = blk.get("term") or {}
+            if t.get("k") == "call" and not blk.get("cleanup"):
+                f = t.get("f") or {}
+                n = f.get("rpath") or f.get("path") or "?"
+                callees[n] = callees.get(n, 0) + 1
+        for c in (children or {}).get(b["path"], []):
+            scan(c)
+    scan(bj)
     tys = [l["ty"] for l in bj["locals"][:bj["argc"] + 1]]
     return {"sig": tys, "argc": bj["argc"], "callees": callees, "file": (bj.get("span") or "").split(":")[0],
             "abi": bj.get("abi"), "pub": bj.get("pub", False)}
 
 
+def _children(facts_json):
+    ch = {}
+    for bj in facts_json["bodies"]:
+        if bj["kind"] == "closure" and bj.get("parent"):
+            ch.setdefault(bj["parent"], []).append(bj)
+    return ch
+
+
 def build(facts_json):
     out = {}
+    ch = _children(facts_json)
     for bj in facts_json["bodies"]:
-        if bj["kind"] in KINDS:
-            out.setdefault(bj["path"], fingerprint(bj))
+        if bj["kind"] in KINDS or bj["kind"] == "closure":
+            fp = fingerprint(bj, ch)
+            fp["kind"] = bj["kind"]
+            out.setdefault(bj["path"], fp)
     return out
+
+
+def _closure_parent(path):
+    return re.sub(r"::\{closure#\d+\}$", "", path)
 
 
 def _norm_ty(t, path_map):
@@ -48,8 +81,9 @@ def _score(a, b, aname, bname):
     normalised."""
     if a["argc"] != b["argc"] or a.get("abi") != b.get("abi"):
         return 0.0
+    penalty = 0.0
     if [re.sub(r"'\w+", "'_", x) for x in a["sig"]] != [re.sub(r"'\w+", "'_", x) for x in b["sig"]]:
-        return 0.0
+        penalty = 0.15      # e.g. a generic parameter replaced by a concrete type
     ca = dict(a["callees"])
     cb = dict(b["callees"])
     if aname in ca:
@@ -59,13 +93,13 @@ def _score(a, b, aname, bname):
     keys = set(ca) | set(cb)
     if not keys:
         # leaf functions: the signature is all there is; accept only when the module is unchanged
-        return 0.65 if a["file"] == b["file"] else 0.0
-    inter = sum(min(ca.get(k, 0), cb.get(k, 0)) for k in keys)
-    union = sum(max(ca.get(k, 0), cb.get(k, 0)) for k in keys)
+        return (0.65 - penalty) if a["file"] == b["file"] else 0.0
+    inter = sum(_weight(k) * min(ca.get(k, 0), cb.get(k, 0)) for k in keys)
+    union = sum(_weight(k) * max(ca.get(k, 0), cb.get(k, 0)) for k in keys)
     s = inter / union if union else 0.0
     if a["file"] == b["file"]:
         s = min(1.0, s + 0.1)
-    return s
+    return max(0.0, s - penalty)
 
 
 def detect_renames(facts_json, table):
@@ -74,7 +108,8 @@ def detect_renames(facts_json, table):
     fresh = [p for p in present if p not in table]
     if not missing or not fresh:
         return {}
-    fps = {p: fingerprint(present[p]) for p in fresh}
+    ch = _children(facts_json)
+    fps = {p: fingerprint(present[p], ch) for p in fresh}
     # callees of the new functions may themselves mention renamed callees; iterate twice with the partial map
     result = {}
     for _round in range(2):
@@ -95,6 +130,13 @@ def detect_renames(facts_json, table):
             scored.sort(reverse=True)
             if scored and scored[0][0] >= MIN_SCORE and (len(scored) == 1 or scored[0][0] - scored[1][0] >= MARGIN):
                 cand[m] = scored[0]
+            elif scored and scored[0][0] >= LOW_SCORE and (len(scored) == 1 or scored[0][0] - scored[1][0] >= MARGIN) and \
+                    table[m]["file"] == fps[scored[0][1]]["file"] and table[m]["sig"][:1] == fps[scored[0][1]]["sig"][:1]:
+                # a function of the same file with the same return type whose body was rewritten: accept only as a mutual best match
+                f = scored[0][1]
+                back = sorted(((_score(table[m2], fps[f], m2, f), m2) for m2 in missing), reverse=True)
+                if back and back[0][1] == m and (len(back) == 1 or back[0][0] - back[1][0] >= MARGIN):
+                    cand[m] = scored[0]
         # one new function may be claimed by one missing anchor only
         claimed = {}
         for m, (s, f) in cand.items():
@@ -106,24 +148,100 @@ def detect_renames(facts_json, table):
 
 
 def apply_renames(raw_text, renames):
-    """Textual rename of paths in the fact file (whole path tokens only)."""
-    for new, old in sorted(renames.items(), key=lambda kv: -len(kv[0])):
+    """Textual rename of paths in the fact file (whole path tokens only; two-phase, so swaps are safe)."""
+    items = sorted(renames.items(), key=lambda kv: -len(kv[0]))
+    for n, (new, _old) in enumerate(items):
         rx = re.compile(r"(?<![A-Za-z0-9_:])" + re.escape(new) + r"(?![A-Za-z0-9_])")
-        raw_text = rx.sub(old.replace("\\", "\\\\"), raw_text)
+        raw_text = rx.sub(lambda _m, n=n: "@@RENAMED%d@@" % n, raw_text)
+    for n, (_new, old) in enumerate(items):
+        raw_text = raw_text.replace("@@RENAMED%d@@" % n, old)
     return raw_text
 
 
+def _callee_score(a, b):
+    ca, cb = a["callees"], b["callees"]
+    keys = set(ca) | set(cb)
+    if not keys:
+        return 0.0
+    inter = sum(_weight(k) * min(ca.get(k, 0), cb.get(k, 0)) for k in keys)
+    union = sum(_weight(k) * max(ca.get(k, 0), cb.get(k, 0)) for k in keys)
+    return inter / union if union else 0.0
+
+
+def detect_closure_renames(j, table):
+    """Closures whose index changed (a closure was added/removed before them, or they moved with an inlined helper to
+    another parent position) and closures that were turned into named functions used as function values."""
+    present = {bj["path"]: bj for bj in j["bodies"] if bj["kind"] in KINDS or bj["kind"] == "closure"}
+    missing = [p for p, fp in table.items() if fp.get("kind") == "closure" and p not in present]
+    if not missing:
+        return {}, {}
+    fresh_cl = [p for p, bj in present.items() if bj["kind"] == "closure" and p not in table]
+    fresh_fn = [p for p, bj in present.items() if bj["kind"] in KINDS and p not in table]
+    ren, conv = {}, {}
+    ch = _children(j)
+    for m in missing:
+        par = _closure_parent(m)
+        best = []
+        for f in fresh_cl:
+            if f in ren:
+                continue
+            if (present[f].get("parent") or _closure_parent(f)) != par:
+                continue
+            sc = _callee_score(table[m], fingerprint(present[f], ch))
+            if not table[m]["callees"] and not fingerprint(present[f], ch)["callees"]:
+                sc = 0.6
+            best.append((sc, f, "closure"))
+        for f in fresh_fn:
+            if f in conv:
+                continue
+            sc = _callee_score(table[m], fingerprint(present[f], ch))
+            if sc >= 0.75:
+                best.append((sc, f, "fn"))
+        best.sort(reverse=True)
+        if best and best[0][0] >= 0.55 and (len(best) == 1 or best[0][0] - best[1][0] >= 0.05 or best[1][2] != best[0][2]):
+            sc, f, kind = best[0]
+            if kind == "closure":
+                ren[f] = m
+            else:
+                conv[f] = m
+    return ren, conv
+
+
 def normalise(raw_text):
-    """-> (possibly rewritten fact text, {new path: known path})"""
+    """-> (fact dict, {new path: known path}, {fresh helper: [callers it was inlined into]})"""
     if not os.path.exists(ANCHORS):
-        return raw_text, {}
+        return json.loads(raw_text), {}, {}
     try:
         table = json.load(open(ANCHORS))["functions"]
     except Exception:
-        return raw_text, {}
+        return json.loads(raw_text), {}, {}
     j = json.loads(raw_text)
-    ren = detect_renames(j, table)
-    if not ren:
-        return raw_text, {}
-    # JSON-escape aware: paths contain no characters that JSON escapes except none in practice
-    return apply_renames(raw_text, ren), ren
+    ftable = {p: fp for p, fp in table.items() if fp.get("kind", "fn") != "closure"}
+    allren = {}
+    # (1) renamed / moved functions
+    ren = detect_renames(j, ftable)
+    if ren:
+        j = json.loads(apply_renames(json.dumps(j), ren))
+        allren.update(ren)
+    # (2) closures turned into named functions (used as function values, so they cannot be inlined)
+    _r, conv = detect_closure_renames(j, table)
+    if conv:
+        j = json.loads(apply_renames(json.dumps(j), conv))
+        for bj in j["bodies"]:
+            if bj["path"] in conv.values() and bj["kind"] in KINDS:
+                bj["kind"] = "closure"
+                bj["parent"] = _closure_parent(bj["path"])
+                bj["converted_from_fn"] = True
+        allren.update(conv)
+    # (3) new helper functions are analysed inlined into their callers
+    fresh = [bj["path"] for bj in j["bodies"] if bj["kind"] in KINDS and bj["path"] not in ftable]
+    inl = {}
+    if fresh:
+        from .inline import inline_fresh
+        inl = inline_fresh(j, fresh)
+    # (4) closures whose index / parent changed
+    cren, _c = detect_closure_renames(j, table)
+    if cren:
+        j = json.loads(apply_renames(json.dumps(j), cren))
+        allren.update(cren)
+    return j, allren, inl
